@@ -177,6 +177,7 @@ impl Exec {
 	pub fn close(&mut self) -> Result<(), Fail> {
 		self.it = None;
 		self.locks.clear();
+		self.model.unlock_all();
 		if let Some(db) = self.db.take() {
 			let r = catch_unwind(AssertUnwindSafe(move || drop(db)));
 			if let Err(e) = r {
@@ -348,9 +349,15 @@ impl Exec {
 				self.pm.sync_from(&d);
 			},
 			Ev::It(c) => self.it_call(c)?,
-			Ev::Lock(c, k) => crate::trees::lock(self, *c, k)?,
+			Ev::Lock(c, k) => {
+				crate::trees::lock(self, *c, k)?;
+				if self.locks.contains_key(&(*c, k.bytes())) {
+					self.model.lock(*c, &k.bytes());
+				}
+			},
 			Ev::Unlock(c, k) => {
 				self.locks.remove(&(*c, k.bytes()));
+				self.model.unlock(*c, &k.bytes());
 			},
 		}
 		Ok(())
